@@ -46,8 +46,9 @@ type ProcessSet struct {
 
 	subTracer tracing.ITracer
 
-	mch  chan imessage
-	done chan struct{}
+	mch      chan imessage
+	done     chan struct{}
+	doneOnce sync.Once
 }
 
 func NewProcessSet(executeProcesses, waitingProcesses []*schema.Process, definitions *schema.Definitions, opts ...Option) (*ProcessSet, error) {
@@ -121,7 +122,8 @@ func (ps *ProcessSet) WaitUntilComplete(ctx context.Context) (complete bool) {
 	go func() {
 		ps.wg.Wait()
 		verifhook.Point("pset.waited")
-		close(ps.done)
+		// every call spawns one of these: only the first may close the channel
+		ps.doneOnce.Do(func() { close(ps.done) })
 	}()
 	select {
 	case <-ctx.Done():
